@@ -4,15 +4,15 @@ from checks.common import bounded_part, want, contract_sources, make_replay, t_o
 from pysym.harness import run_cases
 
 LEVEL = 'exploration'
-DEDUCTIVE = []          # contract modules run by engine P for this property
+DEDUCTIVE = [('contracts.ringsmorgan', ('_canonic_ring',))]          # (contract module, case-name filter) run by engine P
 FINISH = dict(rule='see checks/b06.py RULE / run.bound entries', explanation='bounded stand-in (engine B) of the contracts of DESIGN §2 C06; '
               'labelled bounded, never counted as proved', trusted_base=['CPython 3.12', 'oracles/*', 'RDKit where stated'])
 replay = make_replay('C06')
 
 
 def deductive(run):
-    for mod in DEDUCTIVE:
-        run_cases(run, mod)
+    for mod, flt in DEDUCTIVE:
+        run_cases(run, mod, select=(lambda c, flt=flt: flt is None or any(x in c.name for x in flt)))
 
 
 def main(run):
